@@ -188,7 +188,7 @@ def step (w : W) (ws : List String) : W × String :=
         match addOffers w.st b1 b2 off with
         | .ok s =>
           -- the request locks 10 tokens of the client in the allocation's write pool (held by the storage contract)
-          match Ledger.applyTransfers s.accts [⟨c, storageSC, 100000000000⟩] with
+          match Ledger.applyTransfers s.accts [{ src := c, dst := storageSC, amount := 100000000000 }] with
           | .ok a => ({ w with st := { s with accts := bumpNonce a c } }, "ok")
           | .error _ => (w, "fail")
         | .error _ => ({ w with st := { w.st with accts := bumpNonce w.st.accts c } }, "fail")
